@@ -582,4 +582,16 @@ theorem xyzzDoubleStark_total {b X Y ZZ ZZZ : F} {P : (sw 1 b).Point} (hc : (2 :
     · obtain ⟨h3, hadd⟩ := C02_tangent_is_group_double hc h hy
       exact Or.inr ⟨_, _, _, h3, xyzzDoubleStark_tangent hc hr hy, hadd⟩
 
+/-- stark-curve `g1JacExtended.doubleMixed` on every affine input (a = aCurveCoeff) -/
+theorem xyzzDoubleMixedStark_total {a b x y : F} {P : (sw a b).Point} (hc : (2 : F) ≠ 0) (hp : AffPt a b x y P) :
+    XyzzPt a b (xyzzDoubleMixedStark a x y).1 (xyzzDoubleMixedStark a x y).2.1 (xyzzDoubleMixedStark a x y).2.2.1
+      (xyzzDoubleMixedStark a x y).2.2.2 (P + P) := by
+  have hZ : y = 0 → (xyzzDoubleMixedStark a x y).2.2.1 = 0 := by rintro rfl; simp only [xyzzDoubleMixedStark]; ring
+  rcases hp with ⟨rfl, rfl, rfl⟩ | ⟨_, h, rfl⟩
+  · exact Or.inl ⟨hZ rfl, by simp⟩
+  · by_cases hy : y = 0
+    · exact Or.inl ⟨hZ hy, C02_opposite_is_zero h h (by simp [hy])⟩
+    · obtain ⟨x3, y3, l3, h3, hadd, hrep⟩ := C02_starkDoubleMixed_group_law hc h hy
+      exact Or.inr ⟨l3, x3, y3, h3, hrep, hadd⟩
+
 end GV.CurveGen
